@@ -107,4 +107,8 @@ class Timer:
         self.start()
 
     def _unset_task(self, task: asyncio.Future):
-        self._task = None
+        # Only unset when the completed task is the current one: after a
+        # reschedule the callback of the cancelled task runs when the new task
+        # has already been stored
+        if self._task is task:
+            self._task = None
